@@ -11,7 +11,7 @@ import numpy as np
 from ._prob_util import (jax_setup, fr, rs, rsl, fl, fll, dyadic, allclose, maxerr, safe, is_err)
 
 ID = "C29"
-LEAN_MODULES = ["NiftyVerif.Core.Proto", "NiftyVerif.Model.GaussMarkov", "NiftyVerif.Props.C29"]
+LEAN_MODULES = ["NiftyVerif.Core.Proto", "NiftyVerif.Model.GaussMarkov", "NiftyVerif.Model.RatApprox", "NiftyVerif.Props.C29"]
 DRIVER = "Driver/C29.lean"
 OBLIGATIONS = ["NiftyVerif.C29." + t for t in (
     "wiener_excitation_response", "wiener_cov", "wiener_cov_const", "wiener_AAt",
